@@ -216,7 +216,7 @@ def run(ctx):
     # ---- (1) escaping canaries + (4) context snapshots -------------------------------------------------
     n = ctx.n(600, 10000)
     for i in range(n):
-        ast = [talgen.gen(rnd) for _ in range(rnd.randint(1, 3))]
+        ast = talgen.FIXED[i] if i < len(talgen.FIXED) else [talgen.gen(rnd) for _ in range(rnd.randint(1, 3))]
         tpl = "".join(talgen.ser(x) for x in ast)
         g = hostile_ctx(rnd)
         before = copy.deepcopy(g)
